@@ -32,10 +32,14 @@ func ruleCombinators(c *Ctx, rule string) {
 		snapRejects, snapSets := 0, 0
 		for _, scen := range []struct {
 			accepts bool
-			empty   int // the context holds no parameter when the combinator is asked
-		}{{true, 1}, {true, -1}, {false, 1}, {false, -1}} {
-			accepts, empty := scen.accepts, scen.empty
+			empty   int  // the context holds no parameter when the combinator is asked
+			mixed   bool // two members: the first one gives the other answer (And: accepts, then the second rejects)
+		}{{true, 1, false}, {true, -1, false}, {false, 1, false}, {false, -1, false}, {!comb.and, -1, true}} {
+			accepts, empty, mixed := scen.accepts, scen.empty, scen.mixed
 			se := &symEval{c: c}
+			if mixed {
+				se.loopIters = 2
+			}
 			found := 0 // inside the callback of Context.Range: is the visited key in the looked-up map
 			se.elem = func(slice string) string {
 				if strings.Contains(slice, "MakeMap") || slice == "NIL" || strings.Contains(slice, "params") {
@@ -44,7 +48,10 @@ func ruleCombinators(c *Ctx, rule string) {
 				return "MEMBER" // whatever list the members were put into
 			}
 			se.truth = func(e string) int {
-				if e == "ACCEPTS" {
+				if e == "ACCEPTS" || e == "ACCEPTS-FIRST" {
+					if mixed && e == "ACCEPTS-FIRST" {
+						return pm(!accepts)
+					}
 					return pm(accepts)
 				}
 				if strings.HasPrefix(e, "FOUND(") && strings.HasSuffix(e, ",PK)") {
@@ -64,10 +71,20 @@ func ruleCombinators(c *Ctx, rule string) {
 					for _, a := range args {
 						parts = append(parts, a.e)
 					}
+					first := true
+					for _, e := range st.effects {
+						if strings.HasPrefix(e, "ASK(") {
+							first = false
+						}
+					}
 					st.effects = append(st.effects, "ASK("+strings.Join(parts, ",")+")")
 					// a member that accepted may have rewritten the path and recorded parameters
 					st.heap["R.URL.Path"] = sv("PATH-AFTER-MEMBER")
-					return []sval{sv("ACCEPTS")}, true
+					return []sval{sv(ifelse(first, "ACCEPTS-FIRST", "ACCEPTS"))}, true
+				}
+				if strings.HasPrefix(name, "slices.Contains") && len(args) == 2 {
+					// membership of the visited key in a list of the snapshot: the found flag of a lookup
+					return []sval{sv("FOUND(" + args[0].e + "," + args[1].e + ")")}, true
 				}
 				switch name {
 				case "types.(*Context).Count":
@@ -120,6 +137,17 @@ func ruleCombinators(c *Ctx, rule string) {
 				if r.pan || len(r.ret) != 1 {
 					bad = append(bad, "a path panics or returns no verdict")
 					continue
+				}
+				if mixed {
+					asks := 0
+					for _, e := range r.st.effects {
+						if strings.HasPrefix(e, "ASK(") {
+							asks++
+						}
+					}
+					if asks < 2 {
+						continue // the one-member outcomes are judged by the uniform scenarios
+					}
 				}
 				n++
 				ret := r.ret[0]
@@ -210,6 +238,13 @@ func combinatorEffects(and, asked, rejectsAfterAsk bool, before, after []string)
 	// own: the effect touches neither the request nor the context — it fills or recycles memory of the combinator
 	// (the snapshot map or slice, a pooled buffer)
 	own := func(e string) bool {
+		if strings.HasPrefix(e, "STORE ") && !strings.HasPrefix(e, "STORE ?") {
+			// a store is judged by the place written: a local snapshot may hold the request's path
+			if i := strings.Index(e, " = "); i > 0 {
+				loc := e[len("STORE "):i]
+				return !strings.Contains(loc, "CTX") && !strings.HasPrefix(loc, "R.") && !strings.Contains(loc, "(R.")
+			}
+		}
 		return !strings.Contains(e, "CTX") && !strings.Contains(e, "R.") && !strings.HasPrefix(e, "STORE ?")
 	}
 	// a walk over the context's parameters whose callback writes nothing to the context or the request
